@@ -118,14 +118,27 @@ def one(ctx, where, n, m, N):
 
     def body(oracle):
         return one_path(ctx, where, n, m, N, oracle, holder)
+    from ..libmodels import NeedsOrdering
     try:
-        paths = approx_paths(body)
+        try:
+            runs = [('', approx_paths(body))]
+        except NeedsOrdering:
+            # the code orders the grid: the property names increasing and decreasing grids, judge it for both
+            runs = []
+            for hname, sign in (('increasing grid', 1), ('decreasing grid', -1)):
+                ndarr.ORDER_RANK.clear()
+                ndarr.ORDER_RANK.update({'x%d' % k: sign * k for k in range(N)})
+                try:
+                    runs.append(('/' + hname, approx_paths(body)))
+                finally:
+                    ndarr.ORDER_RANK.clear()
     except AnalysisError as exc:
         ctx.rep.undecided('R-WINDOW', 'fornberg.fd_derivative', exc, 'n=%d/m=%d/len(x)=%d' % (n, m, N))
         return
     rep = ctx.rep
-    for decisions, res, exc in paths:
-        label = 'n=%d/m=%d/len(x)=%d' % (n, m, N) + ('' if not decisions else '/' + path_text(decisions))
+    for hname, paths in runs:
+      for decisions, res, exc in paths:
+        label = 'n=%d/m=%d/len(x)=%d' % (n, m, N) + hname + ('' if not decisions else '/' + path_text(decisions))
         if exc is not None:
             rep.violation('R-COVER', 'fornberg.fd_derivative', where, {'raises': exc.exc_name, 'message': exc.msg[:100]},
                           'a grid of at least 2*(n//2+m)+2 points is accepted', label, key='raises')
